@@ -133,7 +133,9 @@ INVALID_LINES = ['read', 'read nomod:value', 'read m:_nix', 'read m:_hidden', 'r
                  'change m:_s "' + 'y' * 3000 + '"', 'read m:value\x00', '\x00', 'read\tm:value', 'read  m:value', ' read m:value', 'read m:value ',
                  'change m:target NaN', 'change m:target Infinity', 'change m:target 1e999', 'change m:target [', 'change m:target {"a":', 'change m:target 5 6',
                  'change m:target 5}', 'ping "x', 'read m:vàlue', 'réad m:value', '{}', '[]', '"read"', '5', 'read m:value:x', 'read :value', 'read m:', 'read :',
-                 'change m:_st null', 'change m:_st {"a": null}', 'do m:_cmd null', 'do m:_cmd [null, null]']
+                 'change m:_st null', 'change m:_st {"a": null}', 'do m:_cmd null', 'do m:_cmd [null, null]',
+                 # JSON nested deeper than any recursion limit (balanced or not)
+                 'change m:_arr ' + '[' * 20000, 'change m:_st ' + '{"a":' * 10000 + '1' + '}' * 10000, 'do m:_cmd ' + '[' * 20000 + ']' * 20000]
 
 
 @st.composite
